@@ -200,14 +200,15 @@ def _cv(b, i, depth):
     return b[i:j], j
 
 
-def same_result(a, b, sorted_keys):
-    """two result field lists [status, payload]; unsorted map iteration is compared in canonical form"""
+def same_result(a, b, sorted_keys, multi_map=False):
+    """two result field lists [status, payload]; unsorted map iteration is compared in canonical form
+    (and which of several errors is met first is then unspecified)"""
     if a is None or b is None:
         return False
     if a[0] != b[0]:
         return False
     if a[0] != "ok":
-        return a[1] == b[1]
+        return a[1] == b[1] or (not sorted_keys and multi_map)
     if a[1] == b[1]:
         return True
     if sorted_keys:
